@@ -171,6 +171,8 @@ pub struct World {
     /// oracle parameters last written by the harness (convenience; monitors decode bytes)
     pub pyth: std::collections::HashMap<Pubkey, PythPx>,
     pub swb: std::collections::HashMap<Pubkey, SwbPx>,
+    /// images of the writable accounts of the last observed transaction before it executed
+    pub last_pre: Shadow,
 }
 
 pub fn wi(x: f64) -> WrappedI80F48 {
@@ -218,6 +220,7 @@ impl World {
             shadow: Shadow::new(),
             pyth: Default::default(),
             swb: Default::default(),
+            last_pre: Shadow::new(),
         };
         w.chain.set_time(start_time.max(w.chain.now()));
         let p = w.chain.payer.pubkey();
@@ -744,6 +747,16 @@ impl World {
     }
     pub async fn observe(&mut self, m: &mut Mon, ixs: &[Instruction], out: &TxOut) {
         if out.ok() {
+            self.last_pre.clear();
+            for i in ixs {
+                for mt in &i.accounts {
+                    if mt.is_writable {
+                        if let Some(a) = self.shadow.get(&mt.pubkey) {
+                            self.last_pre.insert(mt.pubkey, a.clone());
+                        }
+                    }
+                }
+            }
             self.step_events(m, out);
             self.refresh_for(ixs).await;
             m.on_tx_commit(self, ixs, out);
